@@ -17,8 +17,8 @@ m("c03-postmeta-before-meta", "C03", "nomt/src/store/sync.rs",
   "        bitbox_sync.post_meta(shared.io_pool.make_handle())?;\n        Meta::write(&shared.io_pool.page_pool(), &shared.meta_fd, &new_meta)?;\n        self.sync_seqn += 1;\n",
   "O3|store::sync::Sync::sync|post-meta|write(ht)")
 m("c03-drop-beatree-wait", "C03", "nomt/src/store/sync.rs",
-  "        let beatree_meta_wd = beatree_sync.wait_pre_meta()?;\n",
-  "        let beatree_meta_wd = crate::beatree::SyncData { ln_freelist_pn: 0, ln_bump: 0, bbn_freelist_pn: 0, bbn_bump: 0 };\n",
+  "        let beatree_pre_meta = beatree_sync.wait_pre_meta();\n        bitbox_pre_meta?;\n        let beatree_meta_wd = beatree_pre_meta?;\n",
+  "        bitbox_pre_meta?;\n        let beatree_meta_wd = crate::beatree::SyncData { ln_freelist_pn: 0, ln_bump: 0, bbn_freelist_pn: 0, bbn_bump: 0 };\n",
   "O1|store::sync::Sync::sync|pre-meta|")
 m("c03-recover-flip", "C03", "nomt/src/bitbox/mod.rs",
   "    if wal_reader.sync_seqn() != sync_seqn {",
@@ -400,16 +400,16 @@ m("benign-sync-helper-c03", "C03", "nomt/src/store/meta.rs",
   "        fd.write_all_at(&page[..], 0)?;\n        Self::flush(fd)\n    }\n\n    fn flush(fd: &File) -> std::io::Result<()> {\n        fd.sync_all()?;\n        Ok(())\n    }",
   None)
 m("benign-logging-in-sync", "C03", "nomt/src/store/sync.rs",
-  "        bitbox_sync.wait_pre_meta()?;\n        let beatree_meta_wd = beatree_sync.wait_pre_meta()?;\n",
-  "        bitbox_sync.wait_pre_meta()?;\n        let beatree_meta_wd = beatree_sync.wait_pre_meta()?;\n        let _elapsed = std::time::Instant::now();\n",
+  "        bitbox_pre_meta?;\n        let beatree_meta_wd = beatree_pre_meta?;\n",
+  "        bitbox_pre_meta?;\n        let beatree_meta_wd = beatree_pre_meta?;\n        let _elapsed = std::time::Instant::now();\n",
   None)
 m("benign-post-meta-reorder", "C03", "nomt/src/store/sync.rs",
-  "        bitbox_sync.post_meta(shared.io_pool.make_handle())?;\n        beatree_sync.post_meta();\n",
-  "        beatree_sync.post_meta();\n        bitbox_sync.post_meta(shared.io_pool.make_handle())?;\n",
+  "        let bitbox_post_meta = bitbox_sync.post_meta(shared.io_pool.make_handle());\n        if bitbox_post_meta.is_ok() {\n            beatree_sync.post_meta();\n        }\n",
+  "        beatree_sync.post_meta();\n        let bitbox_post_meta = bitbox_sync.post_meta(shared.io_pool.make_handle());\n",
   None)
 m("benign-post-meta-reorder-c17", "C17", "nomt/src/store/sync.rs",
-  "        bitbox_sync.post_meta(shared.io_pool.make_handle())?;\n        beatree_sync.post_meta();\n",
-  "        beatree_sync.post_meta();\n        bitbox_sync.post_meta(shared.io_pool.make_handle())?;\n",
+  "        let bitbox_post_meta = bitbox_sync.post_meta(shared.io_pool.make_handle());\n        if bitbox_post_meta.is_ok() {\n            beatree_sync.post_meta();\n        }\n",
+  "        beatree_sync.post_meta();\n        let bitbox_post_meta = bitbox_sync.post_meta(shared.io_pool.make_handle());\n",
   None)
 m("benign-truncate-with-if-let", "C09", "nomt/src/rollback/mod.rs",
   "        let mut in_memory = self.shared.in_memory.lock();\n        if n > in_memory.total_len() {\n            return Ok(None);\n        }\n",
@@ -739,6 +739,18 @@ m("c19-overflow-deleted-not-drained", "C19", "nomt/src/beatree/ops/update/leaf_s
 m("benign-keep-up-to-found-and-overflow", "C19", "nomt/src/beatree/ops/update/leaf_updater.rs",
   "        if found {\n            let (val, overflow) = base.cell(to);\n            if overflow {\n                with_deleted_overflow(val);\n            }\n        }",
   "        if !found {\n            return;\n        }\n        match base.cell(to) {\n            (val, true) => with_deleted_overflow(val),\n            _ => {}\n        }",
+  None)
+m("c19-pop-forgets-head-page", "C19", "nomt/src/beatree/allocator/free_list.rs",
+  "            let _ = self.portions.pop();\n            self.released_portions.push(prev_head_pn);",
+  "            let _ = self.portions.pop();\n            let _ = prev_head_pn;",
+  "U5|beatree::allocator::free_list::FreeList::pop|portions.pop=>released-or-put-back")
+m("c19-discard-drops-emptied-portion", "C19", "nomt/src/beatree/allocator/free_list.rs",
+  "            } else {\n                self.released_portions.push(head_pn);\n            }\n\n            discarded += to_discard;",
+  "            } else {\n                let _ = head_pn;\n            }\n\n            discarded += to_discard;",
+  "U5|beatree::allocator::free_list::FreeList::discard|portions.pop=>released-or-put-back")
+m("benign-discard-match-on-emptiness", "C19", "nomt/src/beatree/allocator/free_list.rs",
+  "            if !head.is_empty() {\n                self.portions.push((head_pn, head));\n            } else {\n                self.released_portions.push(head_pn);\n            }",
+  "            match head.is_empty() {\n                true => self.released_portions.push(head_pn),\n                false => self.portions.push((head_pn, head)),\n            }",
   None)
 m("c19-allocate-ignores-free-list", "C19", "nomt/src/beatree/allocator/mod.rs",
   "        if allocation_index >= free_list.len() {\n            let pn = PageNumber(sync.bump.0 + (allocation_index - free_list.len()) as u32);",
